@@ -207,7 +207,6 @@ PINS = [
     ("bytes.padded_len", "fuel-types/src/bytes.rs", "padded_len", None),
     ("script.script_data_offset", TX + "types/script.rs", "script_data_offset", None),
     ("script.body_offset_end", TX + "types/script.rs", "body_offset_end", None),
-    ("script.precompute", TX + "types/script.rs", "precompute", None),
     ("create.storage_slots_offset_at", TX + "types/create.rs", "storage_slots_offset_at", None),
     ("create.body_offset_end", TX + "types/create.rs", "body_offset_end", None),
     ("upload.proof_set_offset_at", TX + "types/upload.rs", "proof_set_offset_at", None),
